@@ -172,12 +172,12 @@ def cluster_case(item):
     try:
         f = os.path.join(d, "in.tsv")
         cf = os.path.join(d, "clusters.tsv")
-        muts = ["mu%d" % i for i in range(4)]
+        muts = ["mu%d" % i for i in range(max(4, 1 + max(i for blk in part for i in blk)))]
         smp = ["T%d" % i for i in range(samples_n)]
         rows = []
         for i, m in enumerate(muts):
             for j, s in enumerate(smp):
-                rows.append("%s\t%s\t%d\t%d\t2\t1\t2\t0.8\t0.01" % (m, s, 20 + 3 * i + j, 5 + 2 * i + 3 * j))
+                rows.append("%s\t%s\t%d\t%d\t2\t1\t2\t0.8\t0.01" % (m, s, 20 + 3 * (i % 7) + j, 5 + 2 * (i % 5) + 3 * j))
         with open(f, "w") as fh:
             fh.write(HDR + "\n" + "\n".join(rows) + "\n")
         cl_of = {}
@@ -207,7 +207,7 @@ def cluster_case(item):
                 want_o, want_n = 0.0, 0.0
             else:
                 want_o, want_n = math.log(p_out) * len(blk), math.log1p(-p_out) * len(blk)
-            if abs(float(dp.outlier_prob) - want_o) > 1e-12 or abs(float(dp.outlier_prob_not) - want_n) > 1e-12:
+            if not (abs(float(dp.outlier_prob) - want_o) <= 1e-12 * (1 + abs(want_o)) and abs(float(dp.outlier_prob_not) - want_n) <= 1e-12 * (1 + abs(want_n))):
                 res["problems"].append("cluster %d of size %d, p=%g: outlier terms (%r, %r), expected (%r, %r)" % (cid, len(blk), p_out, dp.outlier_prob, dp.outlier_prob_not, want_o, want_n))
         for dp in single:
             wo, wn = (0.0, 0.0) if p_out == 0 else (math.log(p_out), math.log1p(-p_out))
@@ -225,7 +225,7 @@ def main(tier, seed):
     chk = Check("C05", tier, seed)
     chk.rule = ("(ref,alt) in {0,1,7,40,10^4}^2 x all (major,minor,normal) with 1<=major<=3, minor<=major, normal in {1,2} x tumour content {0.1,0.65,1} x error "
                 "rate {1e-3,0.02,0.3} x density x precision {1,400,1e4} x grid {2,11,101}, every case through a real input file and load_data; normalisation over every "
-                "alternate count for depths {0,1,5,60}; every partition of 4 mutations into clusters; non-trivial = case with positive depth")
+                "alternate count for depths {0,1,5,60}; every partition of 4 mutations into clusters; clusters of 60-800 mutations x outlier probability {1e-4,1e-9,0.4}; non-trivial = case with positive depth")
     chk.assumptions = ["oracle pmfs: scipy.stats.binom / betabinom", "tolerance 1e-8 relative on log-values"]
     vals = (0, 1, 7, 40, 10000)
     pairs = [(a, b) for a in vals for b in vals]
@@ -255,6 +255,10 @@ def main(tier, seed):
         for p_out in (0.0, 1e-4, 0.3):
             for sn in (1, 2):
                 items.append(("cluster", (part, p_out, sn)))
+    # big clusters (the size enters the outlier terms as a factor: nothing may saturate), with a small one beside them
+    for size in (60, 90, 150, 800):
+        for p_out in (1e-4, 1e-9, 0.4):
+            items.append(("cluster", ((tuple(range(size)), (size,), (size + 1, size + 2)), p_out, 1 + (size % 2))))
     for r in pool_imap(_dispatch, items, chunksize=1):
         kind, res = r
         chk.evaluations += res["n"]
